@@ -10,7 +10,7 @@ import re
 import shutil
 import time
 
-from vcommon import Infra, build_harness, copy_specs, monitor_report, run, scratch_dir, tlc, tlc_errors, tlc_stats
+from vcommon import Infra, drive, build_harness, copy_specs, monitor_report, run, scratch_dir, tlc, tlc_errors, tlc_stats
 
 PROPS = ["C27"]
 
@@ -24,9 +24,7 @@ def compute(tier, seed):
 
         def once(tag):
             outdir = os.path.join(work, tag)
-            rc, txt, hsecs = run([sbin, "-out", outdir], timeout=1800, check=False)
-            if rc != 0:
-                raise Infra("silent harness failed: " + txt[-2000:])
+            txt, hsecs = drive([sbin, "-out", outdir], work, "silent", timeout=1800)
             shutil.copyfile(os.path.join(outdir, "obs.ndjson"), os.path.join(work, "obs.ndjson"))
             rc, out, secs = tlc(work, "SilentMonitor.tla", "SilentMonitor.cfg", workers=1, timeout=900)
             errs = tlc_errors(out)
